@@ -98,6 +98,12 @@ def generate(rng, tier, index):
                 if (im0["lines"], im0["pixels"]) == (im["lines"], im["pixels"]):
                     sels = actors[0]["selections"]
             actors.append({"image": img, "copy": copy, "selections": sels})
+        if rng.random() < 0.25:
+            # one more actor makes a pickled copy of the tree WHILE the others load, then loads
+            # from its new copy
+            im = wp["images"][img0]
+            actors.append({"image": img0, "copy": 0, "pickler": True,
+                           "selections": [select.gen_selection(rng, im["lines"], im["pixels"])]})
         sets.append({"scenario": scenario, "actors": actors, "fresh": rng.random() < 0.25})
     k = 12 if tier == "quick" else 40
     modes = ["random", "random", "random", "pct", "line"] if tier == "quick" else \
@@ -227,10 +233,13 @@ def execute(plan):
             solo_events = 0
             for a in aset["actors"]:
                 items = a.get("items") or [[a["image"], a["copy"], sel] for sel in a["selections"]]
+                if a.get("pickler"):
+                    items = [[i, "pickle-now", sel] for i, _, sel in items]
                 good = []
                 for img_k, copy_k, sel in items:
                     name = prod.images[img_k]
-                    da = copies[copy_k]["imagery"][prod.groups[name]]["data"]
+                    da = copies[0 if copy_k == "pickle-now" else copy_k]["imagery"][
+                        prod.groups[name]]["data"]
                     # the single-threaded load also runs as a (lone) actor, so that a lock the
                     # load path takes twice shows up as a deadlock instead of hanging the harness
                     solo = Sched(script=[], max_steps=200000)
@@ -285,8 +294,15 @@ def execute(plan):
                 for ai, good in enumerate(jobs):
                     def work(good=good, trees=trees):
                         out = []
+                        fresh_copy = None
                         for (img_k, copy_k), sel, _ in good:
-                            da = trees[copy_k]["imagery"][prod.groups[prod.images[img_k]]]["data"]
+                            if copy_k == "pickle-now":
+                                if fresh_copy is None:
+                                    fresh_copy = pickle.loads(pickle.dumps(trees[0]))
+                                src = fresh_copy
+                            else:
+                                src = trees[copy_k]
+                            da = src["imagery"][prod.groups[prod.images[img_k]]]["data"]
                             out.append(select.apply(da, sel).load().values)
                         return out
                     sched.spawn("L%d" % ai, work)
